@@ -96,7 +96,9 @@ class PositionState(StateBaseComponent):
 
         # Shuffle agents if requested
         if self.randomize_placement_order:
-            agents = list(self.agents.items())
+            # Shuffle from a fixed base order, not from the previous episode's shuffled
+            # order, so that a seeded reset does not depend on earlier episodes.
+            agents = sorted(self.agents.items(), key=lambda item: item[0])
             random.shuffle(agents)
             self.agents = dict(agents)
 
@@ -298,7 +300,9 @@ class TargetBarriersFreePlacementState(PositionState):
 
         # Shuffle agents if requested
         if self.randomize_placement_order:
-            agents = list(self.agents.items())
+            # Shuffle from a fixed base order, not from the previous episode's shuffled
+            # order, so that a seeded reset does not depend on earlier episodes.
+            agents = sorted(self.agents.items(), key=lambda item: item[0])
             random.shuffle(agents)
             self.agents = dict(agents)
 
@@ -533,7 +537,9 @@ class MazePlacementState(PositionState):
 
         # Shuffle agents if requested
         if self.randomize_placement_order:
-            agents = list(self.agents.items())
+            # Shuffle from a fixed base order, not from the previous episode's shuffled
+            # order, so that a seeded reset does not depend on earlier episodes.
+            agents = sorted(self.agents.items(), key=lambda item: item[0])
             random.shuffle(agents)
             self.agents = dict(agents)
 
